@@ -452,3 +452,19 @@ package syntax
 //@   loop 1 invariant forall k :: 0 <= k && k < iter ==> result.Value[k] == fn(syntax.Exp.filter, s.Value[k], t, lookup).0
 //@   loop 1 invariant anyChange <==> (exists k :: 0 <= k && k < iter && fn(syntax.Exp.filter, s.Value[k], t, lookup).0 != s.Value[k])
 //@   loop 1 invariant forall k :: 0 <= k && k < len(s.Value) ==> s.Value[k] == old(s.Value[k])
+
+// JSON rendering of number literals (C16): the same strconv renderings as in MRO text.
+//@ func syntax.FloatExp.EncodeJSON property C16
+//@   requires buf != nil
+//@   ensures @buffer e != nil ==> ghost(wrotebase)[buf] == ghost(numbase)[0]
+//@   ensures @value e != nil ==> ghost(numfloat)[0] == e.Value
+//@   ensures @shortest64 e != nil ==> ghost(numfmt)[0] == 64 * 1000000 + 0 * 1000 + 103
+
+//@ func syntax.FloatExp.MarshalJSON property C16
+//@   ensures @buffer e != nil ==> base(result.0) == ghost(numbase)[0]
+//@   ensures @value e != nil ==> ghost(numfloat)[0] == e.Value
+//@   ensures @shortest64 e != nil ==> ghost(numfmt)[0] == 64 * 1000000 + 0 * 1000 + 103
+
+//@ func syntax.encodeInt property C16
+//@   requires buf != nil
+//@   ensures @numeral v < 0 || v >= 10 ==> ghost(wrotestr)[buf] == fn("strconv.FormatInt", v, 10)
